@@ -233,7 +233,7 @@ def pok_kernel(ctx):
     if not (cp and vp):
         return
     vc, vv = FnView.get(P, cp), FnView.get(P, vp)
-    oks = [vc.cx.operand(rv["ops"][0]) for (b, k, rv) in ret_writes(cp) if k == "ok"]
+    oks = ok_values(cp, vc)
     sides = eq_sides(vp, vv)
     if len(oks) != 1 or not sides:
         ctx.violation("H", vp.key, "pok-kernel:shape", "proof construction / verification equation not found", vp.loc)
